@@ -72,6 +72,14 @@ func init() {
 		}
 		return args[1]
 	}
+	verifIntrinsics["verifAnd"] = func(in *Interp, fr *frame, args []Value) Value { return BAnd(args[0].(*Term), args[1].(*Term)) }
+	verifIntrinsics["verifOr"] = func(in *Interp, fr *frame, args []Value) Value { return BOr(args[0].(*Term), args[1].(*Term)) }
+	verifIntrinsics["verifImplies"] = func(in *Interp, fr *frame, args []Value) Value {
+		return BOr(BNot(args[0].(*Term)), args[1].(*Term))
+	}
+	verifIntrinsics["verifIte"] = func(in *Interp, fr *frame, args []Value) Value {
+		return Ite(args[0].(*Term), args[1].(*Term), args[2].(*Term))
+	}
 	verifIntrinsics["verifObserve"] = func(in *Interp, fr *frame, args []Value) Value {
 		if in.ex.fixed != nil {
 			t := args[1].(*Term)
